@@ -434,8 +434,15 @@ func exploreDoc(scen string, d gen.DDoc, k int, st *mc.Stats) {
 		if opt.CommentAt > 0 {
 			nl2++
 		}
-		if c := dev(2*nl2+1, "other-ending"); c > 0 {
-			opt.FlipAt, opt.FlipFrom = (c-1)%nl2+1, c > nl2
+		// (every line when it is the only deviation; the first two, the middle and the last two lines when combined with another)
+		pos := make([]int, 0, nl2)
+		for p := 1; p <= nl2; p++ {
+			if k < 2 || nl2 <= 5 || p <= 2 || p == nl2/2 || p >= nl2-1 {
+				pos = append(pos, p)
+			}
+		}
+		if c := dev(2*len(pos)+1, "other-ending"); c > 0 {
+			opt.FlipAt, opt.FlipFrom = pos[(c-1)%len(pos)], c > len(pos)
 		}
 		text := d.Render(opt)
 		del := gen.DeliveryForChoice(dev(gen.DeliveryModes(len(text)), "delivery"))
